@@ -49,7 +49,7 @@ def ev_call(e):
 
 class C02(F.PropCheck):
     pid = 'C02'; gen_groups = ['ProtoConsts', 'C02Consts']; prop_file = 'Properties_C02'
-    IN = {'CALL': 0, 'ITER': 1, 'DS': 2}
+    IN = {'CALL': 0, 'ITER': 1, 'DS': 2, 'BOOTRR': 3}
     OUT = {0: 'RET', 1: 'WIRE', 2: 'HARDERR', 3: 'SENDBUFEXCEEDED', 4: 'OUTBUFOVERFLOW', 5: 'RESTART'}
     quick_cases = 3000; thorough_cases = 120000
     trusted_extra = ['C02 driver harness/drv/c02.c + harness/include/c02_calls.h: real srpc_async_call, srpc_ds_async_*/srpc_dcs_async_*, '
@@ -67,7 +67,10 @@ class C02(F.PropCheck):
             'non-trivial = at least one WIRE output; distinct by sha256 of the event text')
 
     def build_impl(self):
-        return F.build_c('c02', os.path.join(F.VERIF, 'harness', 'drv', 'c02.c'))
+        wrap = os.path.join(F.VERIF, 'harness', 'wrap')
+        srcs = [os.path.join(wrap, 'c02_proto_wrap.c') if s == os.path.join(wrap, 'proto_wrap.c') else s
+                for s in F.device_sources('dev')]
+        return F.build_c('c02', os.path.join(F.VERIF, 'harness', 'drv', 'c02.c'), sources=srcs)
 
     # ---------------- generators
     def payload_len(self, rng, prev_len):
@@ -110,6 +113,8 @@ class C02(F.PropCheck):
         return ('CALL', [cid], data), n, 'generic'
 
     def gen_results(self, rng, mode):
+        if rng.random() < 0.05:      # short script: the remaining sends succeed
+            return self.gen_results(rng, mode)[:rng.randrange(3)]
         if mode == 'ok': return [OK, OK, OK]
         if mode == 'refuse': return [rng.choice([INPROGRESS, MAXNUM]) for _ in range(3)]
         if mode == 'mixed': return [rng.choice([OK, OK, INPROGRESS, MAXNUM]) for _ in range(3)]
@@ -127,6 +132,8 @@ class C02(F.PropCheck):
             if net == 'hard' and rng.random() < 0.4: net = 'mixed'
             iterp = rng.choice([0.0, 0.5, 1.0, 2.0, 4.0])
             prev = None; refusing = 0
+            if rng.random() < 0.06:      # start close to the 32-bit wrap of the request-id counter
+                evs.append(('BOOTRR', [2**32 - 1 - rng.randrange(0, ncalls + 2)], b'')); tags.add('rr-wrap')
             for j in range(ncalls):
                 e, ln, kind = self.gen_call(rng, prev); evs.append(e); tags.add(kind)
                 if ln is not None: prev = ln
@@ -144,7 +151,7 @@ class C02(F.PropCheck):
                     evs.append(('ITER', rs, b''))
             tags.add('net:' + net)
             if rng.random() < 0.9:
-                total = sum((len(e[2]) if e[0] == 'CALL' else e[1][2]) + 23 for e in evs if e[0] != 'ITER')
+                total = sum((len(e[2]) if e[0] == 'CALL' else e[1][2]) + 23 for e in evs if e[0] in ('CALL', 'DS'))
                 for _ in range(total // 256 + ncalls + 4): evs.append(('ITER', [OK, OK, OK], b''))
                 tags.add('drained')
             cases.append(F.Case('%s%d' % (tier[0], i), evs, sorted(tags)))
@@ -166,9 +173,9 @@ class C02(F.PropCheck):
             if rr != 0:
                 accepted.append((rr, cid, payload)); sure = sure and s
         # request ids
-        prev = 0
+        prev = 0; wrapcase = bool(case.evs) and case.evs[0][0] == 'BOOTRR'     # the 32-bit counter may wrap only there
         for (rr, cid, payload) in accepted:
-            if rr == 0 or rr <= prev:
+            if rr == 0 or (rr <= prev and not wrapcase):
                 v.append('request id %d issued after %d: ids must be non-zero and strictly increasing' % (rr, prev)); break
             prev = rr
         if not sure: return v     # the python table expected the typed wrapper to refuse: leave the content to the model comparison
